@@ -24,7 +24,7 @@ macro_rules! opaque {
         impl Clone for $n { #[verifier::external_body] fn clone(&self) -> (r: Self) ensures r == *self { unimplemented!() } }
     )* } }
 }
-opaque!(DeliveryTag, Payload, Attach, LinkFlow, TransactionId, AmqpError, SessionStopReason, Source, Symbol, SenderRelayFlowState, ReceiverRelayFlowState, ChanSendError);
+opaque!(DeliveryTag, Payload, AttachRest, SessionCtlTx, LinkFlow, TransactionId, AmqpError, SessionStopReason, Source, Symbol, SenderRelayFlowState, ReceiverRelayFlowState, ChanSendError);
 
 #[verifier::external_body]
 pub struct DeliveryState { _p: u8 }
@@ -139,6 +139,9 @@ impl OneshotSender {
 //@@ subst `ArcReceiverUnsettledMap` => `Option<OrderedMap<DeliveryTag, Option<DeliveryState>>>` rule=R4
 //@@ end
 pub enum LinkRelayError { UnattachedHandle, TransferFrameToSender }
+/// Attach: only the field send_attach_inner reads (R11)
+pub struct Attach { pub incomplete_unsettled: bool, pub rest: AttachRest }
+pub type SendAttachErrorKind = DispositionError;   // `pub(crate) type SendAttachErrorKind = IllegalLinkStateError;` (the same two variants)
 
 impl UnsettledMessage {
 //@@ fn file=fe2o3-amqp/src/link/delivery.rs impl=`impl UnsettledMessage` name=settle
@@ -388,6 +391,45 @@ impl<R, T, F, M> Link<R, T, F, M> {
         final(self).input_handle == old(self).input_handle && final(self).name == old(self).name,
 //@@ end
 }
+
+impl<R, T, F, M> Link<R, T, F, M> {
+    /// stand-ins: how the Attach performative is filled in (terminus, unsettled map, properties) is not part of this unit
+    #[verifier::external_body]
+    fn as_complete_attach(&self, handle: OutputHandle, is_reattaching: bool) -> (r: Attach) ensures !r.incomplete_unsettled { unimplemented!() }
+    #[verifier::external_body]
+    fn as_maybe_incomplete_attach(&self, max_frame_size: usize, handle: OutputHandle, is_reattaching: bool) -> (r: Result<Attach, SendAttachErrorKind>) { unimplemented!() }
+
+//@@ fn file=fe2o3-amqp/src/link/mod.rs impl=`~impl<R,T,F,M>Link<R,T,F,M>whereR:role::IntoRole+Send+Sync,T:Into<TargetArchetype>` name=send_attach_inner
+//@@ qmark
+//@@ param writer : &mut ChanSender<LinkFrame>
+//@@ param session : &SessionCtlTx
+//@@ subst `let mut guard = self.unsettled.write(); *guard = None;` => `self.unsettled = None;` rule=R4
+//@@ subst `let guard = self.unsettled.read(); guard.as_ref().map(|m| m.len())` => `unsettled_len(&self.unsettled)` rule=R15
+//@@ subst `get_max_frame_size(session, &self.session_stop_reason)` => `get_max_frame_size(session, &self.session_stop_reason)` rule=optional
+//@@ subst `|_v0|` => `|_v0: ChanSendError|` rule=R5
+//@@ subst `|_v1|` => `|_v1: ChanSendError|` rule=R5
+//@@ spec
+    ensures
+        ({
+            let legal = old(self).local_state is Unattached || old(self).local_state is Detached || old(self).local_state is DetachSent || old(self).local_state is AttachReceived;
+            &&& (!legal || old(self).output_handle is None) ==> r is Err && final(writer).sent@ == old(writer).sent@ && final(self).local_state == old(self).local_state   // [C13.link.attach-only-when-unattached] an attach is sent only by a link that has a handle and is not (being) attached: never a second attach for an attached link
+            &&& r is Ok ==> final(writer).sent@.len() == old(writer).sent@.len() + 1 && final(writer).sent@.last() is Attach
+                    && final(writer).sent@.drop_last() =~= old(writer).sent@                                                                                                 // [C13.link.attach-frame] exactly one attach frame
+            &&& r is Ok ==> final(self).local_state == (match old(self).local_state {
+                    LinkState::AttachReceived => if final(writer).sent@.last()->Attach_0.incomplete_unsettled { LinkState::IncompleteAttachExchanged } else { LinkState::Attached },
+                    _ => if final(writer).sent@.last()->Attach_0.incomplete_unsettled { LinkState::IncompleteAttachSent } else { LinkState::AttachSent },
+                })                                                                                                                                                           // [C13.link.attach-state] sending the attach completes the handshake if the peer's attach was already received, else waits for it
+            &&& r is Err ==> final(writer).sent@ == old(writer).sent@ && final(self).local_state == old(self).local_state
+        }),
+        final(self).output_handle == old(self).output_handle && final(self).input_handle == old(self).input_handle && final(self).name == old(self).name,
+//@@ end
+}
+#[verifier::external_body]
+pub fn get_max_frame_size(session: &SessionCtlTx, stop: &OnceCell<SessionStopReason>) -> (r: Result<usize, SendAttachErrorKind>) { unimplemented!() }
+#[verifier::external_body]
+pub fn unsettled_len<M>(m: &Option<OrderedMap<DeliveryTag, M>>) -> (r: Option<usize>) { unimplemented!() }
+pub trait ErrInto<T>: Sized { spec fn conv(self) -> T; fn err_into(self) -> (r: T) ensures r == self.conv(); }
+impl ErrInto<DispositionError> for DispositionError { open spec fn conv(self) -> DispositionError { self } fn err_into(self) -> (r: DispositionError) { let e = self; assert(e == <DispositionError as ErrInto<DispositionError>>::conv(self)); e } }
 
 } // verus!
 fn main() {}
